@@ -86,8 +86,8 @@ class CapturedPath:
     oriented_edge = items[0]
     oss = [oriented_edge.line.sid1, oriented_edge.line.sid2]
     if oriented_edge.orient == "-":
-      for i in range(len(oss)):
-        oss[i] = oss[i].inverted()
+      # the edge is traversed in the opposite direction, from sid2 to sid1
+      oss = [oss[1].inverted(), oss[0].inverted()]
     if len(items) > 1:
       nextitem = items[1]
       if isinstance(nextitem.line, gfapy.line.segment.GFA2):
